@@ -279,6 +279,21 @@ class Recorder:
             self.ev('api', op='mut', svc=expected_records(self.it, sp))
             info.addresses = [socket.inet_aton(a) for a in a4] + [socket.inet_pton(socket.AF_INET6, a) for a in a6]
             self.specs[sp['sid']] = sp
+        elif op == 'peek':
+            # the application reads the records of a description it registered (read-only accessors: nothing changes)
+            from zeroconf import IPVersion
+            info = self.infos.get(st['sid'])
+            if info is not None:
+                ver = {'v4': IPVersion.V4Only, 'v6': IPVersion.V6Only, 'all': IPVersion.All}[st.get('ver', 'all')]
+                try:
+                    info.dns_addresses(version=ver)
+                    info.dns_addresses(override_ttl=st.get('ttl'), version=ver) if st.get('ttl') else None
+                    info.addresses_by_version(ver)
+                    info.dns_pointer(), info.dns_service(), info.dns_text()
+                    info.dns_pointer(override_ttl=7), info.dns_service(override_ttl=7), info.dns_text(override_ttl=7)
+                    info.properties, info.get_name()
+                except Exception as ex:  # noqa: BLE001
+                    self.ev('exc', what='peek:' + type(ex).__name__, msg=str(ex)[:100])
         elif op == 'unreg':
             info = self.infos.pop(st['sid'], None)
             if info is None:
@@ -908,6 +923,8 @@ def gen_resp(rng: random.Random, sid: str, focus: str, thorough: bool = False) -
             steps.append({'op': 'reg', 'svc': sp, 'coop': True, 'same_object': same})
             continue
         pool = live if live and rng.random() < 0.9 else svcs
+        if live and rng.random() < 0.08:
+            steps.append({'op': 'peek', 'sid': rng.choice(live)['sid'], 'ver': rng.choice(['v4', 'v6', 'all']), 'ttl': rng.choice([0, 0, 60])})
         q = gen_query(rng, pool, focus)
         p_tc = {'c12': 0.25}.get(focus, 0.05)
         if rng.random() < p_tc and 'auth' not in q:
